@@ -54,7 +54,7 @@ func boolArgs(arg string) []bool {
 	return nil
 }
 
-func skipFn(k string) bool { return k == "e_f" || k == "e-f" || k == "-B" || k == "-b" }
+func skipFn(k string) bool { return k == "e_f" || k == "e-f" || k == "-B" || k == "-b" || k == "" } // ("": never asked -- the sequence decoder casts under the empty tag, the check-function is not for it)
 
 func applyCall(fn, arg string) {
 	b := boolArgs(arg)
@@ -525,16 +525,16 @@ type mxjLine struct {
 	Restore []optCall `json:"restore"`
 }
 
-const mxjProbeDoc = `<D-a x-Y="1" B=" &amp;">` + "\n" + `<e-f> 7 </e-f><e-f>&lt;v</e-f><g/><h k="q">true</h>` + "\n" + `</D-a>`
+const mxjProbeDoc = `<D-a x-Y="1" B=" &amp;">` + "\n" + `<e-f> 7 </e-f><e-f>&lt;v</e-f><g/><s>  </s><h k="q">true</h>` + "\n" + `</D-a>`
 const mxjXmppDoc = `<stream:stream to="x" A-b="&amp;"><a>1</a><B-c k="q"> 2 </B-c></stream:stream>`
-const mxjProbeSeqDoc = `<p:A z-z="1&amp;"><!--c--><B-c> v </B-c><d>&lt;7</d><_e>1</_e></p:A>`
+const mxjProbeSeqDoc = `<p:A z-z="1&amp;"><!--c--><B-c> v </B-c><d>&lt;7</d><_e>1</_e><s>  </s></p:A>`
 
 func mxjProbeMap() mxj.Map {
 	return mxj.Map{"doc": map[string]interface{}{"-x": "1", "@y": "2", "#text": "t<", "_text": "u",
-		"e": []interface{}{"a", "", map[string]interface{}{"-k": "v"}}, "g": map[string]interface{}{}, "E": "w", "-X": "3", "__n": 7.0}}
+		"e": []interface{}{"a", "", map[string]interface{}{"-k": "v"}}, "g": map[string]interface{}{}, "E": "w", "-X": "3", "__n": 7.0, "___u": "4"}}
 }
 func mxjLeafMap() mxj.Map {
-	return mxj.Map{"doc": map[string]interface{}{"-x": "1", "@y": "2", "#text": "t", "_text": "u",
+	return mxj.Map{"doc": map[string]interface{}{"-x": "1", "@y": "2", "#text": "t", "_text": "u", "___u": "4",
 		"e": []interface{}{"a", map[string]interface{}{"-k": "v", "#text": "w"}, "b", map[string]interface{}{"f": []interface{}{"c", "d"}}}}}
 }
 func mxjQueryMap() mxj.Map {
